@@ -559,7 +559,8 @@ class PushedAuthorizationRequest(AuthorizationRequest):
             self.merge(_req, "lax")
             self[_vc_name] = _req
 
-        return True
+        # the generic schema check (required parameters, allowed values) on the merged request
+        return Message.verify(self, **kwargs)
 
 
 class SecurityEventToken(Message):
